@@ -225,6 +225,25 @@ _KEEPALIVE = []  # the writer object of the last "withexc" session: the caller's
 
 
 def run_python(cfg, ops, chdir, per_step=None, end="close", sibling=None):
+    """run_python_plain, possibly (cfg["sigtimer"]) in a process that receives a periodic signal with a Python-level
+    handler all the time - an interval timer as profilers, watchdogs and event loops install: system calls of the library
+    may be interrupted, the interpreter runs the handler between two calls"""
+    if not cfg.get("sigtimer"):
+        return run_python_plain(cfg, ops, chdir, per_step, end, sibling)
+    import signal
+    import threading
+    if threading.current_thread() is not threading.main_thread():
+        return run_python_plain(cfg, ops, chdir, per_step, end, sibling)
+    old = signal.signal(signal.SIGALRM, lambda s_, f_: None)
+    signal.setitimer(signal.ITIMER_REAL, 0.0003, 0.0003)
+    try:
+        return run_python_plain(cfg, ops, chdir, per_step, end, sibling)
+    finally:
+        signal.setitimer(signal.ITIMER_REAL, 0, 0)
+        signal.signal(signal.SIGALRM, old)
+
+
+def run_python_plain(cfg, ops, chdir, per_step=None, end="close", sibling=None):
     """Run ops through DigitalRFWriter.  Returns list of per-op results.
 
     end: how the session ends - "close" (explicit close()), "with" (context manager), "del" (the writer object is just
